@@ -13,6 +13,15 @@ Proof. exact to_ascii_borrow. Qed.
 Check C10_borrow : forall A cfg d deny hy dns r, to_ascii A cfg d deny hy dns = Ok (true, r) -> r = d.
 Print Assumptions C10_borrow.
 
+(* fixed point, the Borrowed results: a borrowed result is returned unchanged (and borrowed) by the same operation;
+   the Owned results are covered by C10_idem_statement only (not proved) *)
+Theorem C10_idem_borrowed : forall A cfg d deny hy dns r,
+  to_ascii A cfg d deny hy dns = Ok (true, r) -> to_ascii A cfg r deny hy dns = Ok (true, r).
+Proof. exact to_ascii_idem_borrowed. Qed.
+Check C10_idem_borrowed : forall A cfg d deny hy dns r,
+  to_ascii A cfg d deny hy dns = Ok (true, r) -> to_ascii A cfg r deny hy dns = Ok (true, r).
+Print Assumptions C10_idem_borrowed.
+
 (* DNS length limits when verification is requested: labels 1..63, total <= 253 without the root dot,
    root dot only in VerifyAllowRootDot *)
 Theorem C10_dns : forall A cfg d deny hy dns b r,
